@@ -314,6 +314,23 @@ func checkC11(p *core.Program, r *core.Report) {
 	// ---------------------------------------------------------- R3
 	c11QuotePair(p, r, "R3")
 	c11Identifiers(p, r, nodes)
+	// R4b: a migration that rewrites templates hands every template to the rewriter: references are matched
+	// case-insensitively there, so a textual pre-filter in front of it decides differently
+	{
+		nT := 0
+		for _, cs := range p.CallsToName("excellent/refactor.Template") {
+			if p.IsTestFile(cs.Pos()) || core.RelPkg(core.FuncPkgPath(cs.Caller)) != "flows/definition/migrations" {
+				continue
+			}
+			nT++
+			extra := ""
+			for _, ce := range core.MayConds(cs.Instr.Block()) {
+				extra = canonShort(ce.Cond) + " at " + p.Pos(ce.If.Pos())
+			}
+			r.Check(extra == "", "R4", core.FuncName(rootFn(cs.Caller))+"/every-template-rewritten", p.Pos(cs.Pos()), "refactor.Template is called unconditionally", "whether a template is handed to refactor.Template depends on "+extra+": the rewriter matches references case-insensitively, a textual pre-filter does not, so a reference such as @Webhook is left unrenamed and resolves to something else after the migration")
+		}
+		r.Require("migration_rewrite_sites", nT, 1)
+	}
 	if nl := p.Method("excellent", "NumberLiteral", "String"); nl != nil {
 		ok := false
 		var follow func(fn *ssa.Function, depth int)
